@@ -12,7 +12,28 @@ import (
 )
 
 // (the third denomination is a voucher as the IBC transfer module mints them: fees can be paid in any denomination)
-var distrDenoms = []string{Denom, "uatom", "ibc/27394FB092D2ECCD56123C74F36E4C1F926001CEADA9CA97EA622B25F41E5EB2"}
+var distrBaseDenoms = []string{Denom, "uatom", "ibc/27394FB092D2ECCD56123C74F36E4C1F926001CEADA9CA97EA622B25F41E5EB2"}
+
+// distrDenoms: the denominations of the running case's inflows (set by genInflows: the three base ones and,
+// one case in fifteen, 12-40 more that sort before, between and after them)
+var distrDenoms = distrBaseDenoms
+
+func scaleClasses(cl map[string]bool, blocks int) {
+	if len(distrDenoms) > 3 {
+		cl["inflows_in_more_than_a_dozen_denominations"] = true
+	}
+	if blocks >= 60 {
+		cl["run_of_60_or_more_blocks"] = true
+	}
+}
+
+// drawBlocks: the number of blocks of a distributor case - lo..hi, or, one case in oneIn, a long run of 60-160
+func drawBlocks(t *rapid.T, lo, hi int, oneIn int) int {
+	if rapid.IntRange(0, oneIn-1).Draw(t, "longRun") == 0 {
+		return rapid.IntRange(60, 160).Draw(t, "longRunBlocks")
+	}
+	return rapid.IntRange(lo, hi).Draw(t, "blocks")
+}
 
 type distrInflow struct {
 	Block int    `json:"block"`
@@ -35,8 +56,20 @@ func genInflows(t *rapid.T, cfg DCfg, blocks int, maxDec int) []distrInflow {
 		}
 	}
 	var out []distrInflow
+	distrDenoms = distrBaseDenoms
+	many := 0
+	if rapid.IntRange(0, 14).Draw(t, "manyDenoms") == 0 {
+		many = rapid.IntRange(12, 40).Draw(t, "nExtraDenoms")
+		distrDenoms = append([]string{}, distrBaseDenoms...)
+		for i := 0; i < many; i++ {
+			distrDenoms = append(distrDenoms, fmt.Sprintf("%s%02d", []string{"aa", "ibd", "ub", "uc4", "uc4f", "zz"}[i%6], i))
+		}
+	}
 	for b := 0; b < blocks; b++ {
 		n := rapid.IntRange(0, 3).Draw(t, fmt.Sprintf("blk%d_ninj", b))
+		if many > 0 && blocks <= 10 {
+			n = rapid.IntRange(5, 25).Draw(t, fmt.Sprintf("blk%d_ninjMany", b))
+		}
 		if b == 0 && n == 0 {
 			n = 1
 		}
@@ -44,6 +77,9 @@ func genInflows(t *rapid.T, cfg DCfg, blocks int, maxDec int) []distrInflow {
 			l := fmt.Sprintf("blk%d_inj%d", b, j)
 			a := targets[rapid.IntRange(0, len(targets)-1).Draw(t, l+"_tgt")]
 			d := distrDenoms[[]int{0, 0, 0, 0, 0, 0, 1, 1, 2}[rapid.IntRange(0, 8).Draw(t, l+"_denom")]] // 6:2:1
+			if many > 0 && rapid.IntRange(0, 3).Draw(t, l+"_extraDenom") > 0 {
+				d = distrDenoms[rapid.IntRange(3, len(distrDenoms)-1).Draw(t, l+"_denomX")]
+			}
 			amt := genAmount(t, l+"_amt", maxDec, false)
 			out = append(out, distrInflow{Block: b, Acc: a, Denom: d, Amt: amt.String()})
 		}
@@ -199,7 +235,7 @@ func TestC03(t *testing.T) {
 	st := StatsFor("C03")
 	rapid.Check(t, func(t *rapid.T) {
 		cfg := GenDistrCfg(t, c03Opts())
-		blocks := rapid.IntRange(2, 8).Draw(t, "blocks")
+		blocks := drawBlocks(t, 2, 8, 30)
 		inflows := genInflows(t, cfg, blocks, 30)
 		payments = map[int]bool{}
 		for b := 0; b < blocks; b++ {
@@ -230,6 +266,7 @@ func TestC03(t *testing.T) {
 		if r.Restarts > 0 {
 			cl["node_restarted_between_blocks"] = true
 		}
+		scaleClasses(cl, blocks)
 		nd := map[string]bool{}
 		for _, in := range inflows {
 			nd[in.Denom] = true
